@@ -3,11 +3,15 @@ Streaming refinement, layer 1: the operational unit decoder `Op.unitL L t` again
 specification's `unit t`.
 
 * the counting readers (`decOffsetC`, `decVarintC`) return the values of the plain ones;
-* `unitL L t` is prefix-safe for every lookup `L` with `LazyOf L` on a complete tree;
-* it is sound (`unitL_sound`), answers only `ok`/`insufficient` (`unitL_ok_or_insufficient`), and
+* the specification's `matchCode` and `unit t` are prefix-safe on prefix-free tables
+  (`safe_matchCode`, `safe_unit`); no prefix-safety (monotonicity in the available data) of the
+  lookup `L` itself is assumed — the real stride lookup is not monotone;
+* for every lookup `L` with `WeakLazyOf L` on a complete tree, `unitL L t` is sound
+  (`unitL_sound`), answers only `ok`/`insufficient` (`unitL_ok_or_insufficient`), and
   with `lookahead` bits of slack after the unit it answers whenever `unit t` does (`unitL_slack`).
 -/
 import Qco.Op.Lazy
+import Qco.Lemmas.Tree
 namespace Qco
 namespace Stream
 open Parser Op
@@ -105,22 +109,6 @@ theorem decVarintC_char (N j : Nat) (s : Bits) :
 
 /-! ### the unit -/
 
-theorem safe_unitL (L : Matcher) (hL : LazyOf L) (t : Table) (hct : completeTree t.codes = true)
-    (ps : PState) : Safe (unitL L t ps) := by
-  obtain ⟨st, pos⟩ := ps
-  cases st with
-  | some pr =>
-    obtain ⟨p, rem⟩ := pr
-    unfold unitL
-    exact safe_bind (safe_decOffsetC _ _) fun x => safe_pure _
-  | none =>
-    unfold unitL
-    refine safe_bind (hL.safe pos t.codes hct) fun p => ?_
-    cases (t.info p).jump with
-    | none => exact safe_bind (safe_decOffsetC _ _) fun x => safe_pure _
-    | some j =>
-      exact safe_bind (safe_decVarintC _ _) fun x => safe_bind (safe_decOffsetC _ _) fun y => safe_pure _
-
 theorem suffix_length_le {α : Type} {p : Parser α} (hp : Safe p) {s : Bits} {a : α} {r : Bits}
     (h : p s = .ok a r) : r.length ≤ s.length := by
   obtain ⟨c, rfl⟩ := hp.ok_suffix s a r h
@@ -194,8 +182,123 @@ theorem run_char (t : Table) (pos p rem : Nat) (s : Bits) :
   · left; exact ⟨_, _, _, r', by rw [h1]; rfl, by rw [h2]; rfl⟩
   · right; simp [h1, h2]
 
+/-! ### prefix-safety of the specification's unit -/
+
+theorem matchCode_ok_iff (codes : List Bits) (s : Bits) (i : Nat) (r : Bits)
+    (h : matchCode codes s = .ok i r) : ∃ hi : i < codes.length, s = codes[i] ++ r := by
+  unfold matchCode at h
+  cases hf : codes.findIdx? (fun c => c.isPrefixOf s) with
+  | none => rw [hf] at h; simp only at h; split at h <;> cases h
+  | some j =>
+    rw [hf] at h
+    simp only at h
+    injection h with h1 h2
+    subst h1
+    rw [List.findIdx?_eq_some_iff_getElem] at hf
+    obtain ⟨hj, hp, _⟩ := hf
+    refine ⟨hj, ?_⟩
+    have hp' : codes[j] <+: s := by simpa using hp
+    obtain ⟨u, hu⟩ := hp'
+    rw [← h2, ← hu]
+    simp [List.getD_eq_getElem?_getD, hj]
+
+theorem safe_matchCode (codes : List Bits) (hpf : PrefixFree codes) : Safe (matchCode codes) := by
+  refine ⟨?_, ?_, ?_, ?_, ?_⟩
+  · intro s i r t h
+    obtain ⟨hi, hs⟩ := matchCode_ok_iff codes s i r h
+    rw [hs, List.append_assoc]
+    exact matchCode_code codes hpf i hi (r ++ t)
+  · intro s i r h
+    obtain ⟨hi, hs⟩ := matchCode_ok_iff codes s i r h
+    exact ⟨codes[i], hs⟩
+  · intro s t h
+    unfold matchCode at h ⊢
+    cases hf : codes.findIdx? (fun c => c.isPrefixOf s) with
+    | some j => rw [hf] at h; cases h
+    | none =>
+      rw [hf] at h
+      simp only at h
+      by_cases hany : codes.any (fun c => s.isPrefixOf c) = true
+      · simp [hany] at h
+      · rw [List.findIdx?_eq_none_iff] at hf
+        have hnone : codes.findIdx? (fun c => c.isPrefixOf (s ++ t)) = none := by
+          rw [List.findIdx?_eq_none_iff]
+          intro c hc
+          cases hcp : c.isPrefixOf (s ++ t) with
+          | false => rfl
+          | true =>
+            exfalso
+            have hpre : c <+: s ++ t := List.isPrefixOf_iff_prefix.mp hcp
+            rcases Nat.le_total c.length s.length with hle | hle
+            · have : c <+: s := List.prefix_of_prefix_length_le hpre (List.prefix_append _ _) hle
+              have h1 := hf c hc
+              rw [List.isPrefixOf_iff_prefix.mpr this] at h1; cases h1
+            · have : s <+: c := List.prefix_of_prefix_length_le (List.prefix_append _ _) hpre hle
+              apply hany
+              rw [List.any_eq_true]
+              exact ⟨c, hc, List.isPrefixOf_iff_prefix.mpr this⟩
+        have hany2 : ¬ codes.any (fun c => (s ++ t).isPrefixOf c) = true := by
+          intro h2
+          rw [List.any_eq_true] at h2
+          obtain ⟨c, hc, hcp⟩ := h2
+          apply hany
+          rw [List.any_eq_true]
+          refine ⟨c, hc, List.isPrefixOf_iff_prefix.mpr ?_⟩
+          exact List.IsPrefix.trans (List.prefix_append _ _) (List.isPrefixOf_iff_prefix.mp hcp)
+        rw [hnone]
+        simp [hany2]
+  · intro s t h
+    exfalso
+    unfold matchCode at h
+    split at h
+    · cases h
+    · split at h <;> cases h
+  · intro s t i r h hl
+    obtain ⟨hi, hs⟩ := matchCode_ok_iff codes (s ++ t) i r h
+    have hlen := congrArg List.length hs
+    simp only [List.length_append] at hlen
+    have hsc : s <+: codes[i] :=
+      List.prefix_of_prefix_length_le (List.prefix_append _ _) ⟨r, hs.symm⟩ (by omega)
+    unfold matchCode
+    have hnone : codes.findIdx? (fun c => c.isPrefixOf s) = none := by
+      rw [List.findIdx?_eq_none_iff]
+      intro c hc
+      cases hcp : c.isPrefixOf s with
+      | false => rfl
+      | true =>
+        exfalso
+        have hcs : c <+: s := List.isPrefixOf_iff_prefix.mp hcp
+        obtain ⟨j, hj, rfl⟩ := List.getElem_of_mem hc
+        have := hpf j i hj hi (List.IsPrefix.trans hcs hsc)
+        subst this
+        have := hcs.length_le
+        omega
+    rw [hnone]
+    have hany : codes.any (fun c => s.isPrefixOf c) = true := by
+      rw [List.any_eq_true]
+      exact ⟨codes[i], List.getElem_mem hi, List.isPrefixOf_iff_prefix.mpr hsc⟩
+    simp [hany]
+
+theorem safe_contS (t : Table) (p : Nat) : Safe (contS t p) := by
+  unfold contS
+  cases (t.info p).jump with
+  | none => exact safe_bind (safe_decOffset _ _) fun x => safe_pure _
+  | some j =>
+    exact safe_bind (safe_decVarint _ _) fun x => safe_bind (safe_decOffset _ _) fun y => safe_pure _
+
+/-- the specification's unit is prefix-safe on prefix-free tables -/
+theorem safe_unit (t : Table) (hpf : PrefixFree t.codes) (st : UState) : Safe (unit t st) := by
+  cases st with
+  | some pr =>
+    obtain ⟨p, rem⟩ := pr
+    unfold unit
+    exact safe_bind (safe_decOffset _ _) fun x => safe_pure _
+  | none =>
+    rw [unit_none]
+    exact safe_bind (safe_matchCode t.codes hpf) (safe_contS t)
+
 /-- whenever the operational unit answers, the specification's unit answers the same -/
-theorem unitL_sound (L : Matcher) (hL : LazyOf L) (t : Table) (hct : completeTree t.codes = true)
+theorem unitL_sound (L : Matcher) (hL : WeakLazyOf L) (t : Table) (hct : completeTree t.codes = true)
     (st : UState) (pos : Nat) (s : Bits) (x : Nat) (st' : UState) (pos' : Nat) (r : Bits)
     (h : unitL L t (st, pos) s = .ok (x, (st', pos')) r) : unit t st s = .ok (x, st') r := by
   cases st with
@@ -220,7 +323,7 @@ theorem unitL_sound (L : Matcher) (hL : LazyOf L) (t : Table) (hct : completeTre
     | compat => rw [hl] at h; cases h
 
 /-- the operational unit never fails otherwise than by `insufficient` -/
-theorem unitL_ok_or_insufficient (L : Matcher) (hL : LazyOf L) (t : Table)
+theorem unitL_ok_or_insufficient (L : Matcher) (hL : WeakLazyOf L) (t : Table)
     (hct : completeTree t.codes = true) (ps : PState) (s : Bits) :
     (∃ a r, unitL L t ps s = .ok a r) ∨ unitL L t ps s = .insufficient := by
   obtain ⟨st, pos⟩ := ps
@@ -242,7 +345,7 @@ theorem unitL_ok_or_insufficient (L : Matcher) (hL : LazyOf L) (t : Table)
 
 /-- with `lookahead` bits of slack after the unit, the operational unit answers whenever the
 specification's does -/
-theorem unitL_slack (L : Matcher) (hL : LazyOf L) (t : Table) (hct : completeTree t.codes = true)
+theorem unitL_slack (L : Matcher) (hL : WeakLazyOf L) (t : Table) (hct : completeTree t.codes = true)
     (st : UState) (pos : Nat) (s : Bits) (x : Nat) (st' : UState) (r : Bits)
     (h : unit t st s = .ok (x, st') r) (hr : lookahead ≤ r.length) :
     ∃ pos', unitL L t (st, pos) s = .ok (x, (st', pos')) r := by
